@@ -6,7 +6,7 @@
 (*                                                                             *)
 (* Events (harness/c13_recon.py):                                              *)
 (*  mark      [ok, text, stmts : Seq([path, blk, own, cmt, kind])]             *)
-(*  mutate    [kind, pos, sites : Seq(ReconcileOps site + [org, kind])]        *)
+(*  mutate    [kind, pos, sites : Seq(ReconcileOps site + [org, kind, src])]   *)
 (*  fstedit   [changed]                                                        *)
 (*  reconcile [outcome, exc, userOk, userRawS, userS,                          *)
 (*             res : [text, srcOk, srcS, srcP, liveS, liveP, blks, isRoot,     *)
@@ -48,7 +48,8 @@ BelowDescs(ms, k, c, p) ==
   IF k > Len(ms) THEN <<>>
   ELSE IF c > Len(ms[k].sites) THEN BelowDescs(ms, k + 1, 1, p)
   ELSE LET s == ms[k].sites[c] IN
-       (IF Below(s, p) THEN <<ms[k].kind \o ":" \o s.kind \o "." \o s.n \o "/" \o s.mode>> ELSE <<>>)
+       (IF Below(s, p) THEN <<ms[k].kind \o ":" \o s.kind \o "." \o s.n \o "/" \o s.mode
+                                \o (IF s.src # "" THEN "<" \o s.src ELSE "")>> ELSE <<>>)
          \o BelowDescs(ms, k, c + 1, p)
 
 UntouchedClass(p) ==
@@ -72,7 +73,8 @@ ReconcileClauses(e) ==
              Cl("StructEqualsUserAst", r.srcOk /\ r.srcS = e.userS, MutClass),
              Cl("ResultIsRoot", r.isRoot, MutClass) }
            \cup (IF nmut = 0 THEN {Cl("NoChangeIdentity", r.text = mk.text, "nochange")} ELSE {})
-           \cup (IF Len(r.blks) # Len(mk.stmts) THEN {Cl("Untouched", FALSE, "malformed")}
+           \cup (IF ~r.srcOk THEN {}           \* the statements of the result are found through ast.parse(result): Sync reports this
+                 ELSE IF Len(r.blks) # Len(mk.stmts) THEN {Cl("Untouched", FALSE, "malformed")}
                  ELSE {Cl("Untouched", r.blks[j] = mk.stmts[j].blk, UntouchedClass(mk.stmts[j].path))
                          : j \in {i \in 1..Len(mk.stmts) : mk.stmts[i].path \notin touched}})
            \cup (IF e.model.has
